@@ -1,9 +1,10 @@
 """C15 - every request and API call completes (DESIGN.md 5/C15)."""
 from . import srvrules as R
 from .sockrules import FLAVOURS
+from . import sockrules as S
 
-META = {'level': 'other', 'explanation': 'see DESIGN.md 5/C15', 'trusted_base': [],
-        'not_decided': [], 'assumptions': []}
+from .meta import meta
+META = meta('C15', level='other', extra_tb=None)
 
 
 def check(A):
@@ -12,5 +13,7 @@ def check(A):
         R.response_rules(A, fl, 'C15', parts=('one-response', 'errors'))
         R.no_block_rules(A, fl, 'C15')
         R.post_catch_all_rule(A, fl, 'C15')
+        S.poll_rules(A, fl, 'C15')
+        S.close_once(A, fl, 'C15')
         R.admission_rules(A, fl, 'C15', parts=('sinks',))
     R.asgi_rules(A, 'C15')
